@@ -358,6 +358,11 @@ func (n *Node[T]) Accept(ctx context.Context, block Block) (ExecutedBlock[T], er
 						return
 					}
 
+					if response.id != chunkCert.ChunkID {
+						result <- ErrInvalidChunk
+						return
+					}
+
 					if _, err := n.storage.VerifyRemoteChunk(response); err != nil {
 						result <- err
 						return
@@ -388,6 +393,8 @@ func (n *Node[T]) Accept(ctx context.Context, block Block) (ExecutedBlock[T], er
 					break
 				}
 			}
+			// the fetched chunk was verified, stored and appended by onResponse
+			continue
 		}
 
 		chunk, err := ParseChunk[T](chunkBytes)
